@@ -190,5 +190,5 @@ Definition doc_sample_matrix : list (list nat) :=
    [4; 3; 5; 6; 5; 6; 4; 3; 1; 0; 2; 2]; [6; 5; 3; 4; 6; 5; 3; 4; 2; 2; 0; 1]; [3; 4; 6; 5; 3; 4; 6; 5; 2; 2; 1; 0]]%nat.
 
 (* the sample of the documentation is the structure of <1,1,1>{1,-1,0}, not that of the documented <1,-1,0>{1,1,1} *)
-Lemma doc_sample_is_bcc_110 : cubic_rank_matrix bcc_110 = doc_sample_matrix /\ cubic_rank_matrix fcc_oct <> doc_sample_matrix.
-Proof. split; [vm_compute; reflexivity|]. vm_compute. discriminate. Qed.
+Lemma doc_sample_is_bcc_110 : cubic_rank_matrix fcc_oct <> doc_sample_matrix /\ cubic_rank_matrix bcc_110 = doc_sample_matrix.
+Proof. split; [vm_compute; discriminate|]. vm_compute. reflexivity. Qed.
